@@ -65,12 +65,18 @@ package inputrc
 //@   ensures 'A' <= char && char <= 'F' ==> result == char - 'A' + 10
 //@   ensures '0' <= char && char <= '9' ==> result == char - '0'
 
+// toklen(t): how many runes unescapeRunes consumes for the token at the start of t
+//@ spec toklen(t []rune) int = ite(t[0] != '\\', 1, ite(((g(t, 1) == 'C' && g(t, 4) == 'M') || (g(t, 1) == 'M' && g(t, 4) == 'C')) && g(t, 2) == '-' && g(t, 3) == '\\' && g(t, 5) == '-', 7, ite(g(t, 1) == 'C' && g(t, 2) == '-', 4, ite(g(t, 1) == 'M' && g(t, 2) == '-', ite(g(t, 3) == 0, 3, 4), 2))))
+//@ spec simpletok(t []rune) bool = len(t) >= 1 && (len(t) >= 2 || t[0] != '\\') && g(t, 1) != 'x' && !isoct(g(t, 1)) && toklen(t) == len(t)
+
 //@ func unescapeRunes
-//@   props C12 C01
+//@   props C12 C01 C19
 //@   terminates
 //@   requires 0 <= i && end <= len(r)
 //@   pure
+//@   ensures @C19 [one-token] i == 0 && end == len(r) && simpletok(r) ==> result == str(decr1(r))
 //@   loop 1 invariant i >= i$0
+//@   loop 1 invariant i$0 == 0 && end == len(r) && simpletok(r) ==> (i == 0 && len(seq) == 0) || (i == end && seq == decr1(r))
 //@   loop 1 decreases end - i
 
 //@ func decodeKey
@@ -84,20 +90,62 @@ package inputrc
 //@   loop 2 invariant idx == -1 || (0 <= idx && idx + 1 <= len(val))
 //@   loop 2 decreases len(val)
 
+// ---------------------------------------------------------------------------------------
+// C19: key-sequence notation.  The six one-liners against integer spec functions.
+
+//@ spec encontrol(c rune) rune = emod(uupper(c), 32)
+//@ spec decontrol(c rune) rune = uupper(c - emod(ediv(c, 64), 2) * 64 + 64)
+//@ spec iscontrol(c rune) bool = c < 32 && emod(ediv(c, 128), 2) == 0
+//@ spec enmeta(c rune) rune = c - emod(ediv(c, 128), 2) * 128 + 128
+//@ spec demeta(c rune) rune = c - emod(ediv(c, 128), 2) * 128
+//@ spec ismeta(c rune) bool = c > 127 && c <= 255
+
 //@ func Encontrol
 //@   props C12 C19
 //@   terminates
 //@   pure
+//@   ensures result == encontrol(c)
+
+//@ func Decontrol
+//@   props C19
+//@   terminates
+//@   pure
+//@   ensures result == decontrol(c)
+
+//@ func IsControl
+//@   props C19
+//@   terminates
+//@   pure
+//@   ensures result <==> iscontrol(c)
 
 //@ func Enmeta
 //@   props C12 C19
 //@   terminates
 //@   pure
+//@   ensures result == enmeta(c)
+
+//@ func Demeta
+//@   props C19
+//@   terminates
+//@   pure
+//@   ensures result == demeta(c)
+
+//@ func IsMeta
+//@   props C19
+//@   terminates
+//@   pure
+//@   ensures result <==> ismeta(c)
+
+//@ lemma control_roundtrip(c rune): c >= 0 && iscontrol(c) ==> encontrol(decontrol(c)) == c && 64 <= decontrol(c) && decontrol(c) <= 95
+//@   props C19
+//@ lemma meta_roundtrip(c rune): ismeta(c) ==> enmeta(demeta(c)) == c && 0 <= demeta(c) && demeta(c) <= 127
+//@   props C19
 
 //@ func Unescape
 //@   props C12 C19
 //@   terminates
 //@   pure
+//@   ensures @C19 [one-token] simpletok(runes(s)) ==> result == str(decr1(runes(s)))
 
 // ---------------------------------------------------------------------------------------
 // Handler interface (application code: assumed total; observable effect = ghost call counters)
@@ -268,4 +316,53 @@ package inputrc
 //@   props C12 C01
 //@   terminates
 //@   requires cfg != nil
+//@   pure
+
+// ---------------------------------------------------------------------------------------
+// C19: escape / unescape, one token at a time, over rune sequences.
+// escr1(c, d, r): what escape appends for rune c (d, r = the strings used for Delete and Return).
+// decr1(t): what unescapeRunes appends for a token t that starts a sequence (t[0] == '\\' forms mirror the switch).
+
+//@ spec hexs(c rune) []rune
+//@ spec escdef(c rune) []rune = ite(iscontrol(c), "\\C-", "") + ite(ismeta(ite(iscontrol(c), decontrol(c), c)), "\\M-", "") + ite(uprint(escfin(c)), unit(escfin(c)), hexs(escfin(c)))
+//@ spec escmid(c rune) rune = ite(iscontrol(c), decontrol(c), c)
+//@ spec escfin(c rune) rune = ite(ismeta(escmid(c)), demeta(escmid(c)), escmid(c))
+//@ spec escr1(c rune, d []rune, r []rune) []rune = ite(c == 7, "\\a", ite(c == 8, "\\b", ite(c == 127, d, ite(c == 27, "\\e", ite(c == 12, "\\f", ite(c == 10, "\\n", ite(c == 13, r, ite(c == 9, "\\t", ite(c == 11, "\\v", ite(c == '\\' || c == '"' || c == '\'', "\\" + unit(c), escdef(c)))))))))))
+
+//@ spec g(t []rune, k int) rune = ite(k < len(t), t[k], 0)
+//@ spec isoct(c rune) bool = '0' <= c && c <= '7'
+//@ spec ishex(c rune) bool = ('0' <= c && c <= '9') || ('A' <= c && c <= 'F') || ('a' <= c && c <= 'f')
+//@ spec decr1(t []rune) []rune = ite(t[0] != '\\', unit(t[0]), ite(g(t, 1) == 'a', unit(7), ite(g(t, 1) == 'b', unit(8), ite(g(t, 1) == 'd', unit(127), ite(g(t, 1) == 'e', unit(27), ite(g(t, 1) == 'f', unit(12), ite(g(t, 1) == 'n', unit(10), ite(g(t, 1) == 'r', unit(13), ite(g(t, 1) == 't', unit(9), ite(g(t, 1) == 'v', unit(11), ite(g(t, 1) == '\\' || g(t, 1) == '"' || g(t, 1) == '\'', unit(g(t, 1)), decr2(t))))))))))))
+//@ spec decr2(t []rune) []rune = ite(g(t, 1) == 'x' && ishex(g(t, 2)), hexdec(t), ite(isoct(g(t, 1)), octdec(t), ite(((g(t, 1) == 'C' && g(t, 4) == 'M') || (g(t, 1) == 'M' && g(t, 4) == 'C')) && g(t, 2) == '-' && g(t, 3) == '\\' && g(t, 5) == '-', ite(g(t, 6) != 0, unit(27) + unit(encontrol(g(t, 6))), emptyrunes()), ite(g(t, 1) == 'C' && g(t, 2) == '-', ite(g(t, 3) == '?', unit(127), unit(encontrol(g(t, 3)))), ite(g(t, 1) == 'M' && g(t, 2) == '-', ite(g(t, 3) == 0, unit(27), unit(enmeta(g(t, 3)))), unit(g(t, 1)))))))
+//@ spec hexdec(t []rune) []rune
+//@ spec octdec(t []rune) []rune
+
+// D: the runes for which the notation is expected to round-trip.  The excluded Latin-1 runes are the
+// recorded known finding (0x80-0x9F and 0xFF: meta-then-non-printable goes through \x with a space-padded
+// hex field that unescape cannot read back).
+//@ spec inD(c rune) bool = (0 <= c && c <= 127) || (160 <= c && c <= 254 && uprint(c - 128)) || (c > 255 && uprint(c))
+
+//@ lemma roundtrip1_bind(c rune): inD(c) ==> decr1(escr1(c, "\\C-?", "\\C-M")) == unit(c)
+//@   props C19
+//@ lemma roundtrip1_macro(c rune): inD(c) ==> decr1(escr1(c, "\\d", "\\r")) == unit(c)
+//@   props C19
+//@ lemma roundtrip1_all_latin1(c rune): 0 <= c && c <= 255 ==> decr1(escr1(c, "\\C-?", "\\C-M")) == unit(c)
+//@   props C19
+
+//@ func escape
+//@   props C19 C01
+//@   terminates
+//@   requires m != nil
+//@   pure
+//@   ensures @C19 [one-ascii-rune] len(s) == 1 && s[0] < 128 && str(runes(mget(m, 127))) == mget(m, 127) && str(runes(mget(m, 13))) == mget(m, 13) && (s[0] == 127 || s[0] == 13 || s[0] == 7 || s[0] == 8 || s[0] == 27 || s[0] == 12 || s[0] == 10 || s[0] == 9 || s[0] == 11 || uprint(escfin(s[0]))) ==> result == str(escr1(s[0], runes(mget(m, 127)), runes(mget(m, 13))))
+//@   loop 1 invariant 0 <= itpos && itpos <= len(s)
+//@   loop 1 invariant len(s) == 1 && s[0] < 128 && str(runes(mget(m, 127))) == mget(m, 127) && str(runes(mget(m, 13))) == mget(m, 13) ==> (itpos == 0 && len(v) == 0) || (itpos == 1 && len(v) == 1 && (s[0] == 127 || s[0] == 13 || s[0] == 7 || s[0] == 8 || s[0] == 27 || s[0] == 12 || s[0] == 10 || s[0] == 9 || s[0] == 11 || uprint(escfin(s[0])) ==> v[0] == str(escr1(s[0], runes(mget(m, 127)), runes(mget(m, 13))))))
+
+//@ func Escape
+//@   props C19 C01
+//@   terminates
+//@   pure
+//@ func EscapeMacro
+//@   props C19 C01
+//@   terminates
 //@   pure
